@@ -208,7 +208,7 @@ impl Prop for C06 {
     }
     fn cases(&self, tier: Tier) -> u64 {
         match tier {
-            Tier::Quick => 1 << 19,
+            Tier::Quick => 1 << 20,
             Tier::Thorough => 1 << 25,
         }
     }
